@@ -204,13 +204,18 @@ func genC05(cs *CaseSet, rng *Rng, tier string, dir string) {
 			return c05Req{mobius.HandleRejectChatInvite, hotline.TranRejectChatInvite, []hotline.Field{fn(hotline.FieldChatID, chat[:])}}
 		case 51:
 			return c05Req{mobius.HandleSetChatSubject, hotline.TranSetChatSubject, []hotline.Field{fn(hotline.FieldChatID, chat[:]), fn(hotline.FieldChatSubject, []byte("s"))}}
+		case 53, 54: // the same upload requests as 16 / 15, but resuming a partial upload that is lying there
+			folderName := map[int]string{53: "dest", 54: "Uploads"}[cls]
+			must(os.WriteFile(filepath.Join(root, folderName, "u"+n+".incomplete"), []byte("part"), 0644))
+			return c05Req{mobius.HandleUploadFile, hotline.TranUploadFile, []hotline.Field{fn(hotline.FieldFileName, []byte("u"+n)), fn(hotline.FieldFilePath, pathOf(folderName)),
+				fn(hotline.FieldFileTransferOptions, []byte{0, 1})}}
 		default:
 			return c05Req{mobius.HandleDownloadBanner, hotline.TranDownloadBanner, nil}
 		}
 	}
 	governing := map[int][]int{1: {10}, 2: {40}, 3: {0}, 4: {6}, 5: {4}, 6: {8}, 7: {28}, 8: {29}, 9: {3}, 10: {7}, 11: {5}, 12: {31}, 13: {2}, 14: {39},
 		15: {1}, 16: {1, 25}, 17: {38}, 18: {38, 25}, 19: {30}, 22: {14}, 23: {15}, 24: {16}, 25: {16}, 26: {17}, 27: {15}, 28: {17}, 29: {14}, 30: {22},
-		31: {24}, 32: {32}, 33: {20}, 34: {21}, 35: {20}, 36: {20}, 37: {20}, 38: {21}, 39: {33}, 40: {34}, 41: {36}, 42: {35}, 43: {37}, 44: {11}, 45: {11}}
+		31: {24}, 32: {32}, 33: {20}, 34: {21}, 35: {20}, 36: {20}, 37: {20}, 38: {21}, 39: {33}, 40: {34}, 41: {36}, 42: {35}, 43: {37}, 44: {11}, 45: {11}, 53: {1, 25}, 54: {1}}
 	var one func(cls int, b hotline.AccessBitmap, kind string)
 	one = func(cls int, b hotline.AccessBitmap, kind string) {
 		req := build(cls)
@@ -244,7 +249,7 @@ func genC05(cs *CaseSet, rng *Rng, tier string, dir string) {
 	// notifications at an arbitrary later moment: it runs last so that those cannot be mistaken for an effect of
 	// an unrelated denied request
 	order := []int{}
-	for cls := 1; cls <= 52; cls++ {
+	for cls := 1; cls <= 54; cls++ {
 		if cls != 30 {
 			order = append(order, cls)
 		}
